@@ -24,8 +24,8 @@ __CPROVER_requires(BS_OK(self) && start <= (1ul << 24) && self->first_ <= self->
 __CPROVER_assigns()
 /* found: a position at or after start, inside the stream ... */
 __CPROVER_ensures(__CPROVER_return_value.has ==>
-                  (__CPROVER_return_value.first >= start &&
-                   __CPROVER_return_value.first * self->stride_ + self->first_ < self->raw_bit_size_))
+                  (__CPROVER_return_value.first >= start && __CPROVER_return_value.first < self->raw_bit_size_ &&
+                   CELL_IN(self, __CPROVER_return_value.first)))
 /* ... the reported word matches the pattern under the mask ... */
 __CPROVER_ensures(__CPROVER_return_value.has ==> ((__CPROVER_return_value.second & mask) == (val & mask)))
 /* ... and its bit k is the cell k places before the reported position, for every cell read (ghost position g_p) */
